@@ -34,7 +34,7 @@ Section Write.
   Hypothesis Hext : extendsb o n = true.
   Hypothesis Hwfo : wf_env o = true.
   Hypothesis Hwfn : wf_env n = true.
-  Hypothesis Hopt : opt_init_unset o = true.
+  Hypothesis Hopt : opt_defaults_ok o n = true.
 
   Definition T (v : value) : Prop := forall t key w x,
     wt_val n key t v = true -> keepable n t v = true -> closed_ty o t = true ->
@@ -230,7 +230,8 @@ Section Write.
         assert (Ep' : p' = (id, init_slot fo)).
         { rewrite <- Hq'. unfold kupd. cbn [fst]. fold id. rewrite Hwf_id. reflexivity. }
         rewrite Ep'. unfold kwfield_fn. cbn [fst snd]. rewrite Efo.
-        unfold present. rewrite Hopt_fo, (opt_init o Hopt so nm fo Eso Hfo Hopt_fo). cbn [negb orb]. eauto. }
+        destruct (opt_default_cases o n Hopt so nm fo Eso Hfo Hopt_fo) as [Hpi|(Hpi & Hbp & wd & Hwd & _)]; rewrite Hpi; [eauto|].
+        rewrite Hbp, Hwd. cbn [kbind]. eauto. }
     destruct (kmapM_exists (kwfield_fn o so) (snd (fst st)) Hper) as (ofs_o & Hk).
     unfold keep_slots. rewrite to_wk_struct, Eso. rewrite Z.eqb_refl. cbn [negb]. cbn zeta.
     assert (Hu : is_union so && negb (count_set (s_fields so) (snd (fst st)) =? 1)%nat = false).
@@ -309,7 +310,7 @@ Qed.
 (* the classification: for what the old code holds after reading what the new code wrote, Write
    succeeds exactly when the object is writable *)
 Theorem keep_write_iff o n :
-  extendsb o n = true -> wf_env o = true -> wf_env n = true -> opt_init_unset o = true ->
+  extendsb o n = true -> wf_env o = true -> wf_env n = true -> opt_defaults_ok o n = true ->
   forall v t key w x,
     wt_val n key t v = true -> keepable n t v = true -> closed_ty o t = true ->
     to_w n t v = Ok w -> from_wk o t w = KOk x ->
@@ -321,7 +322,7 @@ Proof.
 Qed.
 
 Theorem keep_roundtrip_total o n so sn v :
-  extendsb o n = true -> wf_env o = true -> wf_env n = true -> opt_init_unset o = true ->
+  extendsb o n = true -> wf_env o = true -> wf_env n = true -> opt_defaults_ok o n = true ->
   find_struct o (s_name sn) = Some so -> find_struct n (s_name sn) = Some sn ->
   wt n sn v = true -> keepable n (TRef (s_name sn)) v = true ->
   keep_accepts o n so sn v = true ->
@@ -350,7 +351,7 @@ Fixpoint chain_dom_total (o n : env) (so sn : sschema) (k : nat) (v : value) : P
   end.
 
 Theorem chain_total o n so sn :
-  extendsb o n = true -> wf_env o = true -> wf_env n = true -> opt_init_unset o = true ->
+  extendsb o n = true -> wf_env o = true -> wf_env n = true -> opt_defaults_ok o n = true ->
   find_struct o (s_name sn) = Some so -> find_struct n (s_name sn) = Some sn ->
   forall k v, chain_dom_total o n so sn k v -> chain o n so sn k v = KOk (iter_norm n sn k v).
 Proof.
@@ -366,3 +367,20 @@ Lemma keep_accepts_examples :
   keep_accepts ex_old ex_new ex_s ex_s ex_v = false /\
   chain_dom_total ex2_old ex2_new ex2_so ex2_sn 3 ex2_v.
 Proof. split; [vm_compute; reflexivity|]. repeat split; vm_compute; reflexivity. Qed.
+
+(* the schema condition really is wider than opt_init_unset: an optional field with a container
+   default (`1: optional list<i32> l = [1, 2]`), left nil by the sender, is written by the old code as
+   its default and read back by the new code as the default it would have used anyway *)
+Definition ex3_fl : field := mkfield 1 [x6c] Optional (TList TI32) (Some (LList [LInt 1; LInt 2])) false.
+Definition ex3_so : sschema := mkstruct [x53] KStruct [ex3_fl].
+Definition ex3_sn : sschema := mkstruct [x53] KStruct [ex3_fl; mkfield 2 [x6e] Optional TString None false].
+Definition ex3_old : env := mkenv [ex3_so] [].
+Definition ex3_new : env := mkenv [ex3_sn] [].
+Definition ex3_v : value := VStruct [(1, VNil); (2, VSome (VStr [x78]))].
+
+Lemma widened_domain_example :
+  opt_init_unset ex3_old = false /\ opt_defaults_ok ex3_old ex3_new = true /\
+  extendsb ex3_old ex3_new = true /\ wf_env ex3_old = true /\ wf_env ex3_new = true /\
+  chain_dom_total ex3_old ex3_new ex3_so ex3_sn 2 ex3_v /\
+  chain ex3_old ex3_new ex3_so ex3_sn 2 ex3_v = KOk (iter_norm ex3_new ex3_sn 2 ex3_v).
+Proof. repeat split; vm_compute; reflexivity. Qed.
